@@ -45,6 +45,10 @@ var c10Cases = []c10Case{
 	{name: "prebound-whole-clause", setup: []string{"assertz(bar(k0)).", "C = (foo(X) :- bar(X)), assertz(C)."}, probes: []string{"foo(X)."}, preds: []string{"foo/1"}},
 	{name: "renamed-apart-fact", setup: []string{"assertz(foo(X)), X = k0."}, probes: []string{"foo(A)."}, preds: []string{"foo/1"}},
 	{name: "renamed-apart-retract", setup: []string{"assertz(foo(X, Y)).", "assertz(foo(k2, k2))."}, probes: []string{"retract(foo(k0, Z)), Z == k1.", "foo(A, B)."}, preds: []string{"foo/2"}},
+	{name: "snapshot-then-bind-clause", setup: []string{"assertz(foo(k0, X)), X = k1, clause(foo(k0, Y), true), var(Y), assertz(done)."}, probes: []string{"done.", "foo(A, B)."}, preds: []string{"foo/2", "done/0"}},
+	{name: "snapshot-then-bind-call", setup: []string{"assertz(foo(X)), X = k1, foo(k2), assertz(done)."}, probes: []string{"done.", "foo(A)."}, preds: []string{"foo/1", "done/0"}},
+	{name: "snapshot-then-bind-retract", setup: []string{"assertz(foo(k0, X)), X = k1, retract(foo(k0, k2)), assertz(done)."}, probes: []string{"done.", "foo(A, B)."}, preds: []string{"foo/2", "done/0"}},
+	{name: "snapshot-rule-then-bind", setup: []string{"assertz((foo(X) :- X = Y)), Y = k1, clause(foo(A), B), assertz(seen(B))."}, probes: []string{"foo(Z)."}, preds: []string{"foo/1"}},
 	{name: "renamed-apart-same-query", setup: []string{"assertz(foo(X)), retract(foo(k0)), var(X), assertz(done)."}, probes: []string{"done."}, preds: []string{"foo/1", "done/0"}},
 	{name: "renamed-apart-two-asserts", setup: []string{"assertz(foo(X)), assertz(bar(X)), retract(foo(k0)), assertz(foo(done))."}, probes: []string{"bar(Y).", "foo(Z)."}, preds: []string{"foo/1", "bar/1"}},
 	{name: "asserta-order", setup: []string{"assertz(foo(k0)).", "asserta(foo(k1)).", "assertz((foo(X) :- X = k2))."}, probes: []string{"foo(X)."}, preds: []string{"foo/1"}},
